@@ -348,6 +348,13 @@ def gen_history(repo, out):
     mod = parse(repo, "ascmhl/history.py")
     cls = find_class(mod, "MHLHistory", "MHLHistory")
     out.text("history_file_name_regex", const_str(class_assign(cls, "history_file_name_regex", "regex"), "regex"), "history.py:history_file_name_regex")
+    # the flags the regex is used with (re.DOTALL since the fix "recognise the tool's own manifest names ...")
+    lf = find_func(cls.body, "load_from_path", "load_from_path")
+    calls = [n for n in ast.walk(lf) if isinstance(n, ast.Call) and ast.unparse(n.func) == "re.findall"
+             and n.args and ast.unparse(n.args[0]) == "MHLHistory.history_file_name_regex"]
+    if len(calls) != 1 or len(calls[0].args) not in (2, 3) or ast.unparse(calls[0].args[1]) != "filename_no_extension":
+        fail("manifest name recogniser", "expected one re.findall(MHLHistory.history_file_name_regex, filename_no_extension[, flags])")
+    out.text("history_file_name_flags", ast.unparse(calls[0].args[2]) if len(calls[0].args) == 3 else "", "history.py: flags of the manifest name regex")
     fn = find_func(cls.body, "_new_generation_filename", "_new_generation_filename")
     idx = local_assigns(fn, "index")
     if len(idx) != 1 or ast.unparse(idx[0].value) != "self.latest_generation_number() + 1":
